@@ -1379,7 +1379,12 @@ class NinjaBackend(backends.Backend):
             elem.add_item('COMMAND', meson_exe_cmd)
             elem.add_item('description', f'Running external command {target.name}{cmd_type}')
             elem.add_item('pool', 'console')
-        deps = self.get_paths_for_dep_outputs(target, target.get_dependencies())
+        # Run targets are written under build_run_target_name(), which is
+        # subproject-qualified; every other dependency is named by its outputs.
+        run_deps = [d for d in target.get_dependencies() if isinstance(d, build.RunTarget)]
+        other_deps = [d for d in target.get_dependencies() if not isinstance(d, build.RunTarget)]
+        deps = [self.build_run_target_name(d) for d in run_deps]
+        deps += self.get_paths_for_dep_outputs(target, other_deps)
         deps += self.get_target_depend_files(target)
         elem.add_dep(deps)
         self.add_build(elem)
